@@ -41,11 +41,50 @@ class DummyDispatcher:
         pass
 
 
+class OwnedLock:
+    """threading.Lock that notices a blocking re-acquisition by its owner (which
+    would block the single I/O thread for ever): records it and raises instead."""
+
+    def __init__(self, world, name):
+        import threading
+        self._lock = threading.Lock()
+        self._owner = None
+        self._world = world
+        self._name = name
+        self._ident = threading.get_ident
+
+    def acquire(self, blocking=True, timeout=-1):
+        if blocking and self._owner == self._ident() and self._lock.locked():
+            import traceback
+            frames = [f.name for f in traceback.extract_stack()[-9:-1]]
+            self._world.deadlocks.append("%s re-acquired by its owner: %s" % (self._name, " > ".join(frames)))
+            raise RuntimeError("self-deadlock on %s" % self._name)
+        ok = self._lock.acquire(blocking, timeout)
+        if ok:
+            self._owner = self._ident()
+        return ok
+
+    def release(self):
+        self._owner = None
+        self._lock.release()
+
+    def locked(self):
+        return self._lock.locked()
+
+    def __enter__(self):
+        self.acquire()
+        return self
+
+    def __exit__(self, *a):
+        self.release()
+
+
 class Config:
-    FIELDS = ("listeners", "limit", "timeout", "interval", "send_bytes", "lookahead", "sndbuf", "t0", "high_watermark")
+    FIELDS = ("listeners", "limit", "timeout", "interval", "send_bytes", "lookahead", "sndbuf", "t0", "high_watermark",
+              "use_poll")
 
     def __init__(self, listeners=1, limit=100, timeout=120, interval=30, send_bytes=1, lookahead=0,
-                 sndbuf=65536, t0=1000, high_watermark=16777216):
+                 sndbuf=65536, t0=1000, high_watermark=16777216, use_poll=False):
         self.listeners = listeners
         self.limit = limit
         self.timeout = timeout
@@ -56,6 +95,8 @@ class Config:
         self.t0 = t0
         # outputs of the histories stay below it (write_soon would block the single thread otherwise)
         self.high_watermark = high_watermark
+        # wasyncore.loop(use_poll=True): poll2 / readwrite instead of poll (the model is the same)
+        self.use_poll = bool(use_poll)
 
     def as_dict(self):
         return {k: getattr(self, k) for k in self.FIELDS}
@@ -90,7 +131,7 @@ class World:
                       (waitress.server.BaseWSGIServer, "channel_class", waitress.server.BaseWSGIServer.channel_class)]
         self.clock = FakeTime(cfg.t0)
         self.kernel = FakeKernel(first_fd=FD0, conn_room=cfg.sndbuf)
-        self.selectmod = self.kernel.select_module()
+        self.selectmod = self.kernel.select_module(with_poll=cfg.use_poll)
         waitress.server.time = self.clock
         waitress.channel.time = self.clock
         waitress.wasyncore.time = self.clock
@@ -101,6 +142,10 @@ class World:
         world = self
 
         class RecordingChannel(HTTPChannel):
+            def __init__(self, *a, **kw):
+                HTTPChannel.__init__(self, *a, **kw)
+                self.requests_lock = OwnedLock(world, "requests_lock")
+
             def write_soon(self, data):
                 n = HTTPChannel.write_soon(self, data)
                 if n:
@@ -109,6 +154,7 @@ class World:
 
         waitress.server.BaseWSGIServer.channel_class = RecordingChannel
         self.writes = []
+        self.deadlocks = []
         self.next_body = 0
         self.map = {}
         self.dispatcher = DummyDispatcher()
@@ -202,7 +248,7 @@ class World:
             self.clock.advance(ev[1])
             return "adv %d" % ev[1]
         if kind == "poll":
-            self.wasyncore.loop(timeout=1, map=self.map, count=1)
+            self.wasyncore.loop(timeout=1, map=self.map, count=1, use_poll=self.cfg.use_poll)
             for fd, o in self.map.items():
                 if isinstance(o, self.HTTPChannel):
                     self.all_channels[fd] = o
@@ -297,7 +343,8 @@ def gen_config(rng, tier, idx):
     sndbuf = rng.choice([1, 7, 60, 300, 65536])
     t0 = rng.choice([0, 1000, 1700000000])
     high_watermark = rng.choice([16777216, 16777216, 1000000])
-    return Config(listeners, limit, timeout, interval, send_bytes, lookahead, sndbuf, t0, high_watermark)
+    return Config(listeners, limit, timeout, interval, send_bytes, lookahead, sndbuf, t0, high_watermark,
+                  use_poll=(idx % 3 == 2))
 
 
 def choose_event(rng, cfg, w, phase):
@@ -366,7 +413,7 @@ def snapshot(w):
             "sent": k.sent, "recvd": sum(1 for op, n in k.log if op == "recv" and n),
         }
     return {
-        "now": w.clock.now, "len": len(w.map), "chans": chans,
+        "now": w.clock.now, "len": len(w.map), "chans": chans, "deadlocks": list(w.deadlocks),
         "listeners": [{"acc": bool(s.accepting), "ovf": bool(s.in_connection_overflow),
                        "ncc": s.next_channel_cleanup, "backlog": [k.fd for k in s.socket.backlog]}
                       for s in w.servers],
@@ -390,6 +437,9 @@ def monitor(cfg, obs):
     expired_since = {}   # fd -> time at which it was first seen inactive and expired, continuously since
     true_la = {}         # fd -> time of the last accept / receive of data / send of data / end of service()
     for step, (ev, b, a) in enumerate(obs):
+        if len(a["deadlocks"]) > len(b["deadlocks"]):
+            out.append(("io-thread-deadlock", "step %d (%s): the I/O thread would block for ever: %s" % (
+                step, ev[0], a["deadlocks"][-1]), None))
         # last_activity is the time of the last activity seen on the wire (or end of service)
         for fd, c in a["chans"].items():
             cb = b["chans"].get(fd)
@@ -498,6 +548,50 @@ def scenario_f21(cfg=None):
     return cfg, ev
 
 
+EXPECT_HEAD = b"POST /x HTTP/1.1\r\nHost: a\r\nExpect: 100-continue\r\nContent-Length: 5\r\n\r\n"
+
+
+def teardown_probe(use_poll=False):
+    """Teardown from inside received(): a client sends a head with Expect: 100-continue
+    and resets before the server answers; recv() still delivers the head, the send of
+    "100 Continue" fails with EPIPE and the channel is closed from within received()
+    (requests_lock held).  Afterwards the loop must still run: the descriptor is gone,
+    a new connection is accepted, maintenance still runs.  Real classes only (the model
+    has no Expect requests).  -> list of problems (strings)."""
+    logging.getLogger("waitress").setLevel(logging.CRITICAL + 1)
+    cfg = Config(listeners=1, limit=100, timeout=5, interval=2, use_poll=use_poll)
+    w = World(cfg)
+    bad = []
+    try:
+        w.apply(("connect", 0))
+        w.apply(("poll",))
+        c = w.conns[FD0]
+        c.client_send(EXPECT_HEAD, "x")
+        c.client_close()
+        try:
+            w.apply(("poll",))
+        except Exception as e:   # the loop itself died
+            bad.append("poll turn raised %s: %s" % (type(e).__name__, e))
+        if w.deadlocks:
+            bad.append("the I/O thread would block for ever: " + w.deadlocks[0])
+        if FD0 in w.map:
+            bad.append("connection %d still in the map after its client reset" % FD0)
+        w.apply(("connect", 0))
+        w.apply(("adv", 3))
+        ncc = w.servers[0].next_channel_cleanup
+        try:
+            w.apply(("poll",))
+        except Exception as e:
+            bad.append("next poll turn raised %s: %s" % (type(e).__name__, e))
+        if FD0 + 1 not in w.map:
+            bad.append("a new connection is not accepted after the teardown")
+        if w.servers[0].next_channel_cleanup == ncc:
+            bad.append("maintenance no longer runs after the teardown")
+    finally:
+        w.close()
+    return bad
+
+
 def scenario_limit_two_listeners(limit=5):
     """Both listeners pass the admission test in the same turn: limit + 1."""
     cfg = Config(listeners=2, limit=limit, timeout=120, interval=30)
@@ -602,9 +696,174 @@ def pred_cases():
             wa.poll(0.0, {5: o, 6: filler})
             rr, ww, ee = asked[0]
             out.append(("pred poll %d %d %d" % (r, wr, acc), "%d%d%d" % (int(5 in rr), int(5 in ww), int(5 in ee))))
+        wa.select = saved_sel
+        # wasyncore.poll: which handle_*_event an object returned in r / w / e gets
+        for in_r, in_w, in_e in itertools.product([0, 1], repeat=3):
+            got = _run_select_turn(wa, True, True, False, (in_r, in_w, in_e))
+            out.append(("pred polldispatch %d %d %d" % (in_r, in_w, in_e),
+                        "%d%d%d" % (int("read" in got["called"]), int("write" in got["called"]), int("expt" in got["called"]))))
+        # wasyncore.poll2: the event mask registered per object
+        for r, wr, acc in itertools.product([0, 1], repeat=3):
+            got = _run_poll2_turn(wa, r, wr, acc, 0)
+            f = got["registered"]
+            bits = "".join(str(int(bool(f & b))) for b in _pollbits()) if f is not None else "000000"
+            out.append(("pred poll2reg %d %d %d" % (r, wr, acc), "%s %d" % (bits, int(f is not None))))
+            if got["scan_calls"] != (1, 1):
+                out.append(("pred poll2reg %d %d %d" % (r, wr, acc), "readable()/writable() called %r times" % (got["scan_calls"],)))
+        # wasyncore.readwrite: which handler for which returned flag word (all 64)
+        for word in itertools.product([0, 1], repeat=6):
+            flags = sum(b for b, on in zip(_pollbits(), word) if on)
+            rec = _Recorder(True, True, False)
+            wa.readwrite(rec, flags)
+            out.append(("pred readwrite %d %d %d %d %d %d" % word,
+                        "%d%d%d%d" % tuple(int(k in rec.called) for k in ("read", "write", "expt", "close"))))
     finally:
         wa.select = saved_sel
     return out
+
+
+def _pollbits():
+    import select
+    return [select.POLLIN, select.POLLPRI, select.POLLOUT, select.POLLERR, select.POLLHUP, select.POLLNVAL]
+
+
+class _Recorder:
+    """A dispatcher-like object that only records which handlers the loop calls."""
+
+    def __init__(self, r, w, acc):
+        self.r, self.w, self.accepting = bool(r), bool(w), bool(acc)
+        self.called = []
+        self.nr = self.nw = 0
+
+    def readable(self):
+        self.nr += 1
+        return self.r
+
+    def writable(self):
+        self.nw += 1
+        return self.w
+
+    def handle_read_event(self):
+        self.called.append("read")
+
+    def handle_write_event(self):
+        self.called.append("write")
+
+    def handle_expt_event(self):
+        self.called.append("expt")
+
+    def handle_close(self):
+        self.called.append("close")
+
+    def handle_error(self):
+        self.called.append("error")
+
+
+def _run_select_turn(wa, r, w, acc, answer):
+    """One real wasyncore.poll turn over {5: recorder}; the fake select returns fd 5 in
+    the lists chosen by `answer` (a triple), restricted to the lists it was asked on
+    when answer is None-free.  -> asked lists, handlers called."""
+    asked = {}
+
+    class Sel:
+        def select(self, rr, ww, ee, t):
+            asked["r"], asked["w"], asked["e"] = (5 in rr), (5 in ww), (5 in ee)
+            return ([5] if answer[0] else []), ([5] if answer[1] else []), ([5] if answer[2] else [])
+
+    rec = _Recorder(r, w, acc)
+    filler = _Recorder(True, False, False)
+    saved = wa.select
+    wa.select = Sel()
+    try:
+        wa.poll(0.0, {5: rec, 6: filler})
+    finally:
+        wa.select = saved
+    return {"asked": asked, "called": rec.called, "scan_calls": (rec.nr, rec.nw)}
+
+
+def _run_poll2_turn(wa, r, w, acc, revents):
+    """One real wasyncore.poll2 turn over {5: recorder}; the fake poll object reports
+    `revents` for fd 5 if it was registered.  -> registered mask (None: not registered),
+    handlers called."""
+    import select as real_select
+    reg = {}
+
+    class Poller:
+        def register(self, fd, flags):
+            reg[fd] = flags
+
+        def poll(self, timeout=None):
+            return [(5, revents)] if (5 in reg and revents) else []
+
+    class Sel:
+        def poll(self):
+            return Poller()
+
+        def __getattr__(self, name):
+            return getattr(real_select, name)
+
+    rec = _Recorder(r, w, acc)
+    filler = _Recorder(True, False, False)
+    saved = wa.select
+    wa.select = Sel()
+    try:
+        wa.poll2(0.0, {5: rec, 6: filler})
+    finally:
+        wa.select = saved
+    return {"registered": reg.get(5), "called": rec.called, "scan_calls": (rec.nr, rec.nw)}
+
+
+def loop_search():
+    """The loop-level statement on the REAL wasyncore.poll / poll2 / readwrite, for every
+    readable()/writable()/accepting combination and every kernel answer the kernel
+    hypotheses allow (select: sub-lists of the lists asked; poll: revents within the
+    registered mask plus POLLERR/POLLHUP/POLLNVAL, only for registered descriptors):
+    handle_read_event only if readable() was true at scan time, handle_write_event only if
+    writable() was true on a non-accepting object, handle_expt_event (poll2) only if
+    readable().  -> (number of turns run, list of violations as replay dicts)"""
+    import waitress.wasyncore as wa
+
+    IN, PRI, OUT, ERR, HUP, NVAL = _pollbits()
+    n = 0
+    bad = []
+
+    def judge(loop, r, w, acc, asked, answer, called):
+        v = []
+        if "read" in called and not r:
+            v.append("handle_read_event dispatched although readable() was False")
+        if "write" in called and not (w and not acc):
+            v.append("handle_write_event dispatched although writable() was False or the object is accepting")
+        if loop == "poll2" and "expt" in called and not r:
+            v.append("handle_expt_event dispatched although readable() was False")
+        for text in v:
+            bad.append({"loop": loop, "readable": bool(r), "writable": bool(w), "accepting": bool(acc),
+                        "asked_or_registered": asked, "kernel_answer": answer, "handlers_called": list(called),
+                        "what": text, "failing_input_found": True})
+
+    for r, w, acc in itertools.product([0, 1], repeat=3):
+        # select variant: learn the asked lists first, then every sub-answer
+        probe = _run_select_turn(wa, r, w, acc, (0, 0, 0))
+        a = probe["asked"]
+        if a:
+            for ans in itertools.product([0, 1], repeat=3):
+                if (ans[0] and not a["r"]) or (ans[1] and not a["w"]) or (ans[2] and not a["e"]):
+                    continue
+                got = _run_select_turn(wa, r, w, acc, ans)
+                n += 1
+                judge("poll", r, w, acc, {k: bool(x) for k, x in a.items()}, list(ans), got["called"])
+        # poll variant
+        probe = _run_poll2_turn(wa, r, w, acc, 0)
+        mask = probe["registered"]
+        if mask is not None:
+            for word in itertools.product([0, 1], repeat=6):
+                rev = sum(b for b, on in zip(_pollbits(), word) if on)
+                if rev == 0 or (rev & (IN | PRI | OUT)) & ~mask:
+                    continue
+                got = _run_poll2_turn(wa, r, w, acc, rev)
+                n += 1
+                judge("poll2", r, w, acc, {"mask": mask, "POLLIN": bool(mask & IN), "POLLPRI": bool(mask & PRI),
+                                           "POLLOUT": bool(mask & OUT)}, rev, got["called"])
+    return n, bad
 
 
 def case_hash(cfg, cmds):
